@@ -129,7 +129,7 @@ def run_part(ctx):
     hs = harnesses(ctx.tier)
     ctx.sharded(shard, nshards=len(hs), deadline=ctx.sub_deadline(0.5))
     ex = ctx.total.counters.get("executions", 0) - before
-    ctx.cov["e3_threads"] = {"schedules_explored": ex, "schedule_points": ctx.total.counters.get("schedule_points", 0), "PB": 1 if ctx.tier == "quick" else 2,
+    ctx.cov["e3_threads"] = {"schedules_explored": ex, "coarse_executions": ctx.total.counters.get("coarse_executions", 0), "schedule_points": ctx.total.counters.get("schedule_points", 0), "PB": 1 if ctx.tier == "quick" else 2,
                              "harnesses": [h.name for h in hs]}
     ctx.assumptions = list(ctx.assumptions) + [
         "E3 part: window/buffer(boundaries) and window_when/buffer_when with the boundaries on a second controlled thread (closing observables never fire "
